@@ -713,7 +713,8 @@ pub fn c11(progs: &[Prog], decls: &Decls, max_sym: u32, extra_cb: usize) -> Enum
                                 got.is_none()
                             } else {
                                 match &got {
-                                    None => false,
+                                    // nothing offered is admissible only when the continuation does not fit
+                                    None => ext.len() > bl,
                                     Some(g) => {
                                         g.len() <= bl
                                             && ext.starts_with(g.as_str())
